@@ -404,7 +404,8 @@ func TestVerifC19(t *testing.T) {
 	part := os.Getenv("VERIF_PART")
 	m := vk.NewMonitor("C19", part, "translation_validation",
 		"all shared struct declarations of tproxy.c (sizeof/offsetof from the C compiler, native and -target bpf) vs reflect on the live Go types of this build ("+part+"); PARAM literal lifted from fullLoadBpfObjects and laid out by a generated Go program; every shared constant; gen_ebpf_sync re-run; "+
-			"keys in action: flow-tuple keys logged by the TC program vs bpfTuplesKeyFromAddrPorts, connectivity slots by behaviour over all 256x6 (outbound, type) pairs, domain-table and LPM keys through route(); distinct = declaration or (key kind, class)")
+			"keys in action: flow-tuple keys logged by the TC program vs bpfTuplesKeyFromAddrPorts, connectivity slots by behaviour over all 256x6 (outbound, type) pairs, domain-table and LPM keys through route(); "+
+			"slots in action: every table read or written by a constant/enumerated slot driven end to end between the TC program in kernsim and the production Go reader/writer over real kernel maps (bpf_stats_map with monitor-chosen distinct per-protocol overflow counts, listen_socket_map after publishListenerSockets, routing_map/routing_meta_map/lpm_array_map after BuildKernspace with ring blocks crossing the ring end); Go and C integer constants paired by name; distinct = declaration or (key kind, class)")
 	m.SetFloor(40)
 	m.Set("exhaustive", true)
 	m.Assume("Go HostLayout structs reach the kernel as their in-memory bytes; the PARAM literal is observed on a generated copy of its type expression (fullLoadBpfObjects cannot run here)",
@@ -566,14 +567,20 @@ func TestVerifC19(t *testing.T) {
 	}
 
 	c19CheckConsts(m, native)
+	c19CheckNamePairedConsts(m, native)
 	c19CheckGenerator(m)
 	if part != "stub" {
 		c19KeysInAction(m, k, r)
+		c19SlotsInAction(m, k, r, native)
 	}
 	m.Set("programs", programs)
 	m.Set("disagreements_checked", int(m.Counter("struct_pairs_compared")+m.Counter("constants_compared")+m.Counter("tuple_keys_compared")+m.Counter("connectivity_slots_probed")))
-	m.Require("struct_pairs_compared", "constants_compared", "generated_files_identical", "param_literal_fields", "sentinel_structs", "go_hostlayout_types", "damaged_specs_tried")
+	m.Require("struct_pairs_compared", "constants_compared", "generated_files_identical", "param_literal_fields", "sentinel_structs", "go_hostlayout_types", "damaged_specs_tried", "constants_paired_by_name")
 	if part != "stub" {
+		// every known by-slot consumer exercised end to end, the entities told apart by distinct non-zero values
+		m.Require("slot_consumer_exercised/bpf_stats_map", "stats_reads_judged_distinct_nonzero", "stats_overflows_caused/proto6", "stats_overflows_caused/proto17",
+			"slot_consumer_exercised/listen_socket_map", "slot_consumer_exercised/lpm_array_map", "slot_consumer_exercised/routing_meta_map", "slot_consumer_exercised/routing_map",
+			"routing_installs_crossing_the_ring_end")
 		m.Require("tuple_keys_compared", "connectivity_slots_probed", "domain_keys_probed", "lpm_keys_probed", "lpm_key_bytes_compared", "tuple_keys_compared_reverse_hooks", "entry_point_lookups_hit/v4-after-v6", "entry_point_lookups_hit/v6-after-v4", "entry_point_lookups_hit/v4-after-v4")
 	}
 	m.Done(t)
